@@ -69,6 +69,10 @@ def run_shard(ctx, shard):
     circles = ctx.extra['circles']
     if shard.get('anchor'):
         anchor_check(ctx)
+        for name, rows in gen.bundled_whole():
+            for sc_ in (0.5, 8.0, 37.5):
+                ctx.run_case({'rows': rows, 'scale': sc_, 'flags': 0})
+            ctx.tag('bundled_documents')
     for i in range(shard['n']):
         kind, rows = gen.diagram(rng, circles, allow_quotes=True, allow_braces=True)
         if rng.random() < 0.25:
